@@ -25,7 +25,7 @@ J gen_fault(const std::string& prop, uint64_t run_seed, const std::string& tier)
       if (shape >= 2) by.push_back(0xff);
       n = 0;
     }
-    for (unsigned i = 0; i < n; i++) ref_encode(gen_mv(g, gp), by);
+    for (unsigned i = 0; i < n; i++) gen_encode(g, gen_mv(g, gp), by);
     if (n != 0 && g.chance(1, 4) && by.size() > 1) by.resize((size_t)g.range(1, by.size() - 1));        // a truncated input also allocates before it fails
     if (g.chance(1, 8) && !by.empty()) by[g.below(by.size())] ^= (uint8_t)(1u << g.below(8));
     plan.set("scn", "load"); plan.set("hex", to_hex(by));
@@ -39,7 +39,8 @@ J gen_fault(const std::string& prop, uint64_t run_seed, const std::string& tier)
     // operations that allocate; weighted towards those with many requests (copy / load of whole trees)
     static const int T[] = {OP_LOAD_RAW, OP_LOAD_RAW, OP_LOAD_RAW, OP_LOAD_RAW, OP_LOAD, OP_LOAD, OP_COPY, OP_COPY, OP_COPY, OP_COPY, OP_COPY, OP_COPY, OP_SERIALIZE_ALLOC, OP_SERIALIZE_ALLOC,
                             OP_PUSH, OP_PUSH, OP_SET, OP_MAP_ADD, OP_MAP_ADD, OP_ADD_CHUNK, OP_ADD_CHUNK, OP_BUILD_TAG,
-                            OP_NEW_INT, OP_NEW_FLOAT, OP_NEW_CTRL, OP_NEW_BSTR, OP_NEW_TSTR, OP_NEW_INDEF_BSTR, OP_NEW_INDEF_TSTR, OP_NEW_DEF_ARRAY, OP_NEW_INDEF_ARRAY, OP_NEW_DEF_MAP, OP_NEW_INDEF_MAP, OP_NEW_TAG};
+                            OP_NEW_INT, OP_NEW_FLOAT, OP_NEW_CTRL, OP_NEW_BSTR, OP_NEW_TSTR, OP_NEW_INDEF_BSTR, OP_NEW_INDEF_TSTR, OP_NEW_DEF_ARRAY, OP_NEW_INDEF_ARRAY, OP_NEW_DEF_MAP, OP_NEW_INDEF_MAP, OP_NEW_TAG,
+                            OP_DESCRIBE};   // makes no request on this tree (the scenario is then trivial); an implementation that needs scratch memory must survive its refusal
     int code = T[g.below(sizeof T / sizeof T[0])]; uint64_t fill_for_set = 0;
     // growth prelude: bring a fresh indefinite container to a capacity boundary so the target insert must reallocate
     if (code == OP_PUSH || code == OP_SET || code == OP_MAP_ADD || code == OP_ADD_CHUNK) {
@@ -49,7 +50,7 @@ J gen_fault(const std::string& prop, uint64_t run_seed, const std::string& tier)
       if (code == OP_PUSH || code == OP_SET) { HOp a; a.code = OP_NEW_INDEF_ARRAY; pre.push(hop_to_json(a)); if (fill) { HOp pm; pm.code = OP_PUSH_MANY; pm.a = SEL_LAST; pm.b = g.next() >> 8; pm.c = fill - 1; pre.push(hop_to_json(pm)); } }
       else if (code == OP_MAP_ADD) { HOp a; a.code = OP_NEW_INDEF_MAP; pre.push(hop_to_json(a)); for (uint64_t i = 0; i < fill; i++) { HOp ad; ad.code = OP_MAP_ADD; ad.a = SEL_LAST; ad.b = g.next() >> 8; ad.c = g.next() >> 8; pre.push(hop_to_json(ad)); } }
       else { bool bs = g.chance(1, 2); HOp s; s.code = bs ? OP_NEW_INDEF_BSTR : OP_NEW_INDEF_TSTR; pre.push(hop_to_json(s)); HOp c; c.code = bs ? OP_NEW_BSTR : OP_NEW_TSTR; c.a = g.below(20); c.b = g.next(); pre.push(hop_to_json(c)); for (uint64_t i = 0; i < fill; i++) { HOp ad; ad.code = OP_ADD_CHUNK; ad.a = SEL_LAST; ad.b = SEL_LAST; pre.push(hop_to_json(ad)); } }
-    } else if (code == OP_COPY || code == OP_LOAD || code == OP_SERIALIZE_ALLOC) {
+    } else if (code == OP_COPY || code == OP_LOAD || code == OP_SERIALIZE_ALLOC || code == OP_DESCRIBE) {
       // make sure something substantial exists: a loaded random tree gives every shape the generator knows
       HOp l; l.code = OP_LOAD_RAW; l.c = g.next(); pre.push(hop_to_json(l));
     }
@@ -62,6 +63,7 @@ J gen_fault(const std::string& prop, uint64_t run_seed, const std::string& tier)
       case OP_NEW_DEF_ARRAY: case OP_NEW_DEF_MAP: t.a = g.below(12); break;
       case OP_NEW_TAG: case OP_BUILD_TAG: t.c = gen_u64(g); break;
       case OP_LOAD_RAW: t.c = g.next(); break;
+      case OP_DESCRIBE: t.a = SEL_LAST; t.d = 0; break;
       case OP_PUSH: case OP_SET: case OP_MAP_ADD: case OP_ADD_CHUNK: t.a = SEL_LAST; if (code == OP_ADD_CHUNK) t.b = SEL_LAST; if (code == OP_SET) t.c = fill_for_set; break;   // the container created last; set at index == size appends
       default: break;
     }
